@@ -387,7 +387,8 @@ class C20Check(Check):
             "X": X.tolist(),
             "y0": y0,
             "pool_kind": kind,
-            "cand": g.pick(["none", "none", "idx"]),
+            "cand": g.pick(["none", "none", "idx", "idx_lab"]),
+            "pd_n_jobs": f.pick([None, None, None, None, 1, 4, 50]),
             "n_jobs": int(nj),
             "cpu": int(cpu),
             "mode": mode,
@@ -416,7 +417,10 @@ class C20Check(Check):
         kw = {}
         if arg:
             kw[arg] = R.model(sc["model"], classes=sc["classes"], seed=sc["model_seed"])
-        wrapper = ParallelUtilityEstimationWrapper(query_strategy=inner, n_jobs=sc["n_jobs"], parallel_dict={"backend": "verif_sim"}, random_state=sc["seed"])
+        pd = {"backend": "verif_sim"}
+        if sc.get("pd_n_jobs") is not None:
+            pd["n_jobs"] = int(sc["pd_n_jobs"])  # tolerated (with a warning): the wrapper's own n_jobs decides
+        wrapper = ParallelUtilityEstimationWrapper(query_strategy=inner, n_jobs=sc["n_jobs"], parallel_dict=pd, random_state=sc["seed"])
         return inner, wrapper, kw
 
     def execute(self, sc, keep_log=False):
@@ -432,6 +436,13 @@ class C20Check(Check):
         y = to_y(sc["y0"])
         unl = np.where(np.isnan(y))[0]
         cand = None if sc["cand"] == "none" else unl[:: 2 if len(unl) > 3 else 1].copy()
+        if sc["cand"] == "idx_lab":
+            # an index set may also name samples that already carry a label (strategies that score samples
+            # independently accept arbitrary index sets)
+            lab = np.where(~np.isnan(y))[0]
+            cand = np.sort(np.concatenate([cand, lab[:: 2 if len(lab) > 2 else 1]])).astype(int)
+            if len(lab):
+                ctx.probe("labeled_index_candidates")
         sw_kw = {} if sc.get("sample_weight") is None else {"sample_weight": np.array(sc["sample_weight"], dtype=float)}
         n_cand = len(unl) if cand is None else len(cand)
         cond = {"inner": inner_cls, "mode": sc["mode"], "n_jobs_negative": sc["n_jobs"] < 0, "fewer_candidates_than_cpus": n_cand < sc["cpu"]}
@@ -476,6 +487,9 @@ class C20Check(Check):
                     SIM.switches.setdefault(int(rank), []).append(max(1, int(frac * per_task)))
             _, wrapper, kw = self._objects(sc)
             err = None
+            from ..core import canon as _canon
+
+            wp0 = _canon(wrapper.get_params(deep=True))
             try:
                 kw.update(sw_kw)
                 w_idx, w_u = wrapper.query(X, y, candidates=None if cand is None else cand.copy(), batch_size=1, return_utilities=True, **kw)
@@ -486,6 +500,10 @@ class C20Check(Check):
             W.cpu_count = old_cpu
             SIM.ctx = None
         ctx.sim_time = SIM.steps
+        wp1 = _canon(wrapper.get_params(deep=True))
+        if wp1 != wp0:
+            changed = sorted(k for k in set(wp0) | set(wp1) if wp0.get(k) != wp1.get(k))
+            ctx.violate("wrapper-parameters-changed", subj, f"query changed the wrapper's constructor parameters {changed} (n_jobs={sc['n_jobs']}, {n_cand} candidates)", dict(cond, params=changed))
         if SIM.tasks >= 2:
             ctx.probe("multi_task")
         if sc["mode"] == "isolated":
